@@ -1,4 +1,5 @@
 import BoxoModel.C35.Mark
+import BoxoModel.C35.Types
 /-!
 # C35 — Bitswap per-peer want-list converges to the client's current wants
 
@@ -145,6 +146,32 @@ theorem c35_wanted_progress {cfg : Cfg} {s : St} (h : Reach cfg s) (c : Nat) (hw
   · exact .inr (.inr h1)
   · exact (c35_peer_tracks h c).2.1 h1
 
+/-- **Strongest requested type** (receiver = `wantlist.Wantlist`, whose `Add` never downgrades): in an
+idle state a CID the client wants as want-block is a want-block at the peer; without HAVE support so is
+every broadcast want.  (The peer's type is never weaker than requested. It can be stronger: want-block,
+send, cancel, want-have overrides the queued cancel and the peer keeps the want-block.) -/
+theorem c35_idle_type {cfg : Cfg} {s : St} (h : Reach cfg s) (hq : s.quiet) (c : Nat) :
+    (s.pw c = some .block → s.peerWL.blk c = true) ∧
+    (cfg.supportsHave = false → s.bw c = true → s.peerWL.blk c = true) := by
+  obtain ⟨_, hg⟩ := reach_inv h
+  have ht := reach_tinv h
+  obtain ⟨q1, q2, q3, q4⟩ := hq
+  have heff : effPeer s = s.peerWL := by
+    unfold effPeer; cases hp : s.ph <;> simp_all [isIdle]
+  have t1 := ht.t1 c; have t2 := ht.t2
+  have g5 := hg.g5 c; have g6 := hg.g6 c
+  rw [heff] at t1 t2
+  rw [q2] at t1 t2 g5
+  rw [q3] at t2 g6
+  simp only [WL.blk_nil, WL.has_nil, Bool.false_eq_true, false_or, or_false] at t1 t2 g5 g6
+  exact ⟨fun hw => t1 (g5 hw), fun hh hw => by simpa using t2 hh c (g6 hw)⟩
+
+/-- … and in every state: a want-block recorded as sent is a want-block at the peer (counting the
+message in flight) or a want-block for it is still pending. -/
+theorem c35_type_tracks {cfg : Cfg} {s : St} (h : Reach cfg s) (c : Nat) (hc : s.q.peer.sent.blk c = true) :
+    (effPeer s).blk c = true ∨ s.q.peer.pending.blk c = true :=
+  (reach_tinv h).t1 c hc
+
 /-! ### Non-vacuity: concrete interleavings (decided by evaluation of the model) -/
 
 def run (cfg : Cfg) (evs : List Ev) (s : St) : St := evs.foldl (step cfg) s
@@ -195,5 +222,8 @@ example : (run cfgHave evsW2 {}).quiet ∧ (run cfgHave evsW2 {}).peerWL = [] :=
 /-- a non-trivial idle state (the want-have for 2 is dropped for a peer without HAVE support) -/
 example : (run cfgTiny evsW3 {}).quiet ∧ (run cfgTiny evsW3 {}).peerWL.has 1 = true ∧
     (run cfgTiny evsW3 {}).peerWL.has 2 = false ∧ (run cfgTiny evsW3 {}).peerWL.has 3 = true := by decide
+
+/-- types: without HAVE support the broadcast want 3 is a want-block at the peer -/
+example : (run cfgTiny evsW3 {}).peerWL.blk 1 = true ∧ (run cfgTiny evsW3 {}).peerWL.blk 3 = true := by decide
 
 end C35
